@@ -206,18 +206,19 @@ enum NoteOutcome {
 
 /// `repeated_state`: the pre-state already contains what this notification announces
 /// (remote sender finished for SendFinish; remote receiver closed for ReceiveClose/ReceiveFinish).
-fn remote_note_case(which: RemoteNote, repeated_state: bool) -> NoteOutcome {
+fn remote_note_case(which: RemoteNote, repeated_state: bool, remote_gone: bool) -> NoteOutcome {
     let mut flags = any_port_flags();
     match which {
         RemoteNote::SendFinish => {
             flags.remote_sender_finished = repeated_state;
-            flags.remote_receiver_closed = false;
-            flags.remote_receiver_dropped = kani::any();
-            // a dropped remote receiver implies a closed one; keep the pool state simple here
-            kani::assume(!flags.remote_receiver_dropped);
+            // `remote_gone`: the remote receiver was already closed and dropped (the only state in
+            // which SendFinish can complete the release of the port)
+            flags.remote_receiver_closed = remote_gone;
+            flags.remote_receiver_dropped = remote_gone;
         }
         _ => {
-            flags.remote_sender_finished = false;
+            // `remote_gone` here: the remote sender already finished
+            flags.remote_sender_finished = remote_gone;
             flags.remote_receiver_closed = repeated_state;
             // remote_receiver_dropped implies remote_receiver_closed
             if !repeated_state {
@@ -329,7 +330,7 @@ fn remote_note_case(which: RemoteNote, repeated_state: bool) -> NoteOutcome {
 }
 
 macro_rules! remote_note_harness {
-    ($($name:ident, $which:expr, $rep:expr, $props:literal, $doc:literal;)*) => {$(
+    ($($name:ident, $which:expr, $rep:expr, $gone:expr, $props:literal, $doc:literal;)*) => {$(
         with_lean_model! {
         #[doc = $props]
         /// @tier quick
@@ -342,13 +343,13 @@ macro_rules! remote_note_harness {
         #[kani::unwind(4)]
         #[kani::stub(alloc::fmt::format, empty_format)]
         fn $name() {
-            let o = remote_note_case($which, $rep);
+            let o = remote_note_case($which, $rep, $gone);
             if $rep && $which != RemoteNote::ReceiveFinish {
                 assert!(o == NoteOutcome::Repeated);
                 kani::cover!(o == NoteOutcome::Repeated, "repeated notification rejected");
             } else {
                 kani::cover!(o == NoteOutcome::Kept, "port kept");
-                if $which != RemoteNote::ReceiveClose {
+                if $gone && $which != RemoteNote::ReceiveClose {
                     kani::cover!(o == NoteOutcome::Freed, "port released by the notification");
                 }
             }
@@ -358,12 +359,14 @@ macro_rules! remote_note_harness {
 }
 
 remote_note_harness! {
-    c07_msg_send_finish, RemoteNote::SendFinish, false, "@prop C07 C11 C08", "first SendFinish queues the Finished marker for the local receiver, sets only remote_sender_finished and releases the port iff all four conditions hold";
-    c07_msg_send_finish_twice, RemoteNote::SendFinish, true, "@prop C07 C08", "a second SendFinish is a Protocol error with no state change; never panics";
-    c11_msg_receive_close, RemoteNote::ReceiveClose, false, "@prop C11 C07 C08", "first ReceiveClose closes the credit pool gracefully, raises the hang-up flag, fires the notifiers once and wakes blocked senders; it never releases the port";
-    c11_msg_receive_close_twice, RemoteNote::ReceiveClose, true, "@prop C11 C08", "ReceiveClose after the remote receiver was already closed or dropped is a Protocol error with no state change; never panics";
-    c11_msg_receive_finish, RemoteNote::ReceiveFinish, false, "@prop C11 C07 C08", "ReceiveFinish on an open pool closes it non-gracefully, raises the hang-up flag, wakes blocked senders, sets remote_receiver_dropped and releases the port iff all four conditions hold";
-    c11_msg_receive_finish_after_close, RemoteNote::ReceiveFinish, true, "@prop C11 C07 C08", "ReceiveFinish after ReceiveClose keeps the earlier classification, sets remote_receiver_dropped and releases the port iff all four conditions hold";
+    c07_msg_send_finish, RemoteNote::SendFinish, false, false, "@prop C07 C11 C08", "first SendFinish (remote receiver still there) queues the end-of-stream marker for the local receiver, sets only remote_sender_finished and keeps the port";
+    c07_msg_send_finish_releases, RemoteNote::SendFinish, false, true, "@prop C07 C11 C08", "first SendFinish after the remote receiver was dropped queues the end-of-stream marker, sets only remote_sender_finished and releases the port iff all four conditions hold";
+    c07_msg_send_finish_twice, RemoteNote::SendFinish, true, false, "@prop C07 C08", "a second SendFinish is a Protocol error with no state change; never panics";
+    c11_msg_receive_close, RemoteNote::ReceiveClose, false, false, "@prop C11 C07 C08", "first ReceiveClose closes the credit pool gracefully, raises the hang-up flag, fires the notifiers once and wakes blocked senders; it never releases the port";
+    c11_msg_receive_close_twice, RemoteNote::ReceiveClose, true, false, "@prop C11 C08", "ReceiveClose after the remote receiver was already closed or dropped is a Protocol error with no state change; never panics";
+    c11_msg_receive_finish, RemoteNote::ReceiveFinish, false, false, "@prop C11 C07 C08", "ReceiveFinish on an open pool closes it non-gracefully, raises the hang-up flag, wakes blocked senders, sets remote_receiver_dropped and releases the port iff all four conditions hold";
+    c11_msg_receive_finish_releases, RemoteNote::ReceiveFinish, false, true, "@prop C11 C07 C08", "ReceiveFinish after the remote sender finished closes the pool non-gracefully, sets remote_receiver_dropped and releases the port iff all four conditions hold";
+    c11_msg_receive_finish_after_close, RemoteNote::ReceiveFinish, true, false, "@prop C11 C07 C08", "ReceiveFinish after ReceiveClose keeps the earlier classification, sets remote_receiver_dropped and releases the port iff all four conditions hold";
 }
 
 fn unknown_port_case(kind: u8) {
